@@ -19,7 +19,7 @@ func init() {
 	register(&Check{
 		ID:    "C17",
 		Level: "exploration",
-		Rule: "Go-level histories on the public kv API with the instrumented store passed directly (no hook): 2-4 handles on one prefix run 30-120 steps of Set / Tombstone / RemoveTombstones / Commit / Clone / re-Open with pairwise distinct, non-monotone times, branch factors 2,4,4096, in default, conflict-callback and custom-merge modes, with JSON version objects or the gob format (bucket seeded with a version object without kv_version). " +
+		Rule: "Go-level histories on the public kv API with the instrumented store passed directly (no hook): 2-4 handles on one prefix run 30-120 steps of Set / Tombstone / RemoveTombstones / Commit / Clone / re-Open with pairwise distinct, non-monotone times, branch factors 2,4,4096, in default, conflict-callback and custom-merge modes, with JSON version objects or the gob format (bucket seeded with a version object without kv_version), nodes stored with the default marshaler or with CustomMarshal=json.Marshal (a third of the cases); a quarter of the tombstones on a visible key carry exactly that value's time. " +
 			"A state-based mirror (per handle: key -> value(time) | tombstone(since); join = earliest tombstone, else latest value; purge local to the handle) is compared after every step with Get on every key and a full cursor walk, at sampled steps with Diff between two handles and with TraceHistory (starts at the current value, only values ever set for that key, strictly decreasing times); the conflict callback must only see two different non-tombstone values. " +
 			"non-trivial = a key got a value and a tombstone from different handles and at least one merge of >=2 versions happened; distinct = hash of the operation list",
 		Flavours: []string{"plain"},
@@ -38,6 +38,7 @@ func init() {
 		Run: runC17,
 		Assumptions: []string{
 			"times are pairwise distinct (ties are outside the statement)",
+			"TraceHistory hands a tombstone over as nil, or as the zero value when nodes are stored with a JSON marshaler; both are taken as 'the tombstone', not as a value",
 			"how often the conflict callback fires for a real conflict depends on merge order and is not demanded",
 		},
 	})
@@ -118,6 +119,8 @@ func runC17(c *Case) {
 	defer dropStore(st)
 	mode := c.Index % 3 // 0 default, 1 conflict callback, 2 custom merge
 	gobFormat := (c.Index/3)%4 == 3
+	// a third of the cases store nodes with the JSON marshaler instead of the default one
+	jsonNodes := (c.Index/12)%3 == 2
 	bf := uint([]int{2, 4, 4096, 3}[r.Intn(4)])
 	nh := r.Range(2, 4)
 	nkeys := r.Range(3, 12)
@@ -129,7 +132,7 @@ func runC17(c *Case) {
 		if len(tail) > 80 && os.Getenv("C17_DEBUG") == "" {
 			tail = tail[len(tail)-80:]
 		}
-		c.Violate("C17:"+sig, msg, map[string]interface{}{"mode": mode, "gob": gobFormat, "branch_factor": bf, "log_tail": tail})
+		c.Violate("C17:"+sig, msg, map[string]interface{}{"mode": mode, "gob": gobFormat, "json_nodes": jsonNodes, "branch_factor": bf, "log_tail": tail})
 	}
 	cfg := func(client string) kv.Config {
 		cf := kv.Config{
@@ -137,6 +140,10 @@ func runC17(c *Case) {
 			KeysLike:     "key",
 			ValuesLike:   "value",
 			BranchFactor: bf,
+		}
+		if jsonNodes {
+			cf.CustomMarshal = json.Marshal
+			cf.CustomUnmarshal = json.Unmarshal
 		}
 		switch mode {
 		case 1:
@@ -372,6 +379,12 @@ func runC17(c *Case) {
 			}
 			h.state[k] = nv
 		case x < 55:
+			if e, ok := h.state[k]; ok && e.Tomb == 0 && r.Intn(4) == 0 {
+				// a tombstone carrying exactly the time of the value it hides (no tie: a
+				// tombstone beats every value regardless of time)
+				t = e.T
+				c.Count("tombstones_at_the_value_time", 1)
+			}
 			desc = fmt.Sprintf("%s.Tombstone(@%d, %s)", h.name, t, k)
 			if err := h.db.Tombstone(ctx, time.Unix(t, 0), k); err != nil {
 				fail("tombstone-error", desc+": "+err.Error())
@@ -501,7 +514,9 @@ func runC17(c *Case) {
 				}
 			}
 			for j, v := range vals {
-				if v != "<nil>" && !everSet[k][v] {
+				// a tombstone in the history is handed over as nil (default marshaler) or, decoded from
+				// "v":null by the JSON marshaler, as the zero value ""; no step ever sets ""
+				if v != "<nil>" && !(jsonNodes && v == "") && !everSet[k][v] {
 					fail("trace-foreign-value", fmt.Sprintf("TraceHistory(%s) yields %q which was never set for that key", k, v))
 					return
 				}
